@@ -40,10 +40,10 @@ def hasBroadcast : Frontend → Bool
   | .syncTcp | .syncSerial | .syncUdp | .aioTcp | .aioUdp => true
   | .twistedTcp | .twistedUdp => false
 
-/-- do the handlers append unit 0 to the accepted units when broadcast is enabled (the sync UDP handler and the
-    Twisted protocols do not) -/
+/-- do the handlers append unit 0 to the accepted units when broadcast is enabled (the Twisted protocols have no
+    broadcast option) -/
 def addsBroadcastUnit : Frontend → Bool
-  | .syncTcp | .syncSerial | .aioTcp | .aioUdp => true
+  | .syncTcp | .syncSerial | .syncUdp | .aioTcp | .aioUdp => true
   | _ => false
 
 def acceptedUnits (cfg : Cfg) (ctx : Units) : List Nat :=
@@ -93,10 +93,11 @@ def decServer (pdu : Bytes) : PyM (Option Req) :=
   | .ok r => .ok (some r)
   | .error e => .error e
 
-/-- response ADU for a response to the request with these ids -/
-def frameResp (cfg : Cfg) (resp : Resp) (uid tid pid : Nat) : PyM Bytes := do
+/-- response ADU for a response to the request with these ids.  The handlers copy `transaction_id` and `unit_id`
+    from the request to the response object; `protocol_id` keeps the response's default 0 -/
+def frameResp (cfg : Cfg) (resp : Resp) (uid tid _pid : Nat) : PyM Bytes := do
   let data ← Impl.encResp resp
-  buildFor cfg.framer uid tid pid resp.fc data
+  buildFor cfg.framer uid tid 0 resp.fc data
 
 structure Conn where
   buf : Bytes
